@@ -16,6 +16,9 @@ Line protocol of the C04 model driver (one output line per input line):
   owner                     -> - | ctx/token     (`_locking_token`)
   counter <ctxidx>          -> <n>
   probe                     -> alive <count> | dead:<PyExc>
+  req <act> <tok>           -> <reply tok> <owner after> | hang    (one raw lock request delivered to the worker;
+                               act = acquire|release|force|query, tok = - or ctx/token; used by the schedule family)
+  mreq <tok>                -> ran <count>|locked|hang             (one raw method request delivered to the worker)
 -/
 open QmiModel.Lock
 
@@ -28,6 +31,19 @@ def parseCustom (s : String) : Option (Option String) :=
   else match s.toList with
     | '=' :: rest => some (some (String.ofList rest))
     | _ => none
+
+def parseTok (s : String) : Option (Option Token) :=
+  if s == "-" then some none
+  else match s.splitOn "/" with
+    | c :: t :: rest => some (some ⟨c, "/".intercalate (t :: rest)⟩)
+    | _ => none
+
+def parseAct : String → Option Act
+  | "acquire" => some .acquire
+  | "release" => some .release
+  | "force" => some .forceRelease
+  | "query" => some .query
+  | _ => none
 
 def showOut : Out → String
   | .idx n => toString n
@@ -68,6 +84,17 @@ def stepLine (s : Sys) (line : String) : Sys × String :=
     | some p => match s.proxies[p]? with
       | some px => (s, showTok px.tok ++ " " ++ showTok px.nbTok)
       | none => (s, "bad-op")
+    | none => (s, "bad-op")
+  | ["req", a, t] =>
+    match parseAct a, parseTok t with
+    | some a, some t =>
+      match lockRequest s a t with
+      | (s', none) => (s', "hang")
+      | (s', some rep) => (s', showTok rep ++ " " ++ showTok s'.owner)
+    | _, _ => (s, "bad-op")
+  | ["mreq", t] =>
+    match parseTok t with
+    | some t => let r := callRequest s t; (r.1, showOut r.2)
     | none => (s, "bad-op")
   | ["owner"] => (s, showTok s.owner)
   | ["counter", c] =>
